@@ -1114,6 +1114,14 @@ class Collocator:
                     for dim in output[name].get_index("collocation").names
                 ])
 
+                # Recent xarray versions refuse to overwrite a coordinate that
+                # is backed by a MultiIndex. Hence, we remove the MultiIndex
+                # together with its levels before (the levels are preserved in
+                # stacked_dims_data):
+                output[name] = output[name].drop_vars([
+                    "collocation", *stacked_dims_data.data_vars
+                ])
+
             # Okay, actually we want to get rid of the main coordinate. It
             # should stay as a dimension name but without own labels. I.e. we
             # want to drop it. Because it still may a MultiIndex, we cannot
